@@ -29,6 +29,16 @@ pub open spec fn obj_bound_ok(x: Option<&Obj>) -> bool {
     x is None || (obj_int(*x->Some_0) is Some && isize::MIN <= obj_int(*x->Some_0)->Some_0 <= isize::MAX)
 }
 pub open spec fn obj_bound(x: Option<&Obj>) -> Option<int> { match x { None => None, Some(o) => obj_int(*o) } }
+pub open spec fn opt_obj_bound_ok(x: Option<Obj>) -> bool {
+    x is None || (obj_int(x->Some_0) is Some && isize::MIN <= obj_int(x->Some_0)->Some_0 <= isize::MAX)
+}
+pub open spec fn opt_obj_bound(x: Option<Obj>) -> Option<int> { match x { None => None, Some(o) => obj_int(o) } }
+// interpreter invariant (not verified here): struct ids are unique, so a field accessor of the struct with the same id as an
+// instance indexes inside that instance's field vector
+pub open spec fn field_access_wf(x: Obj, i: Obj) -> bool {
+    (x is Instance && i is Func && i->Func_0 is StructField && x->Instance_0.id == i->Func_0->StructField_0.id)
+        ==> i->Func_0->StructField_1 < x->Instance_1@.len()
+}
 // Rust never allocates more than isize::MAX bytes, so every Vec of non-zero-sized elements has at most isize::MAX elements
 pub open spec fn seq_len_fits_isize(s: Seq) -> bool {
     match s {
